@@ -38,6 +38,11 @@ def OneProgram(rng, k):
     rng.shuffle(fields)
     pred['order'] = [{'f': f, 'desc': rng.random() < 0.5} for f in fields]
     mode = rng.choice(['order', 'limit', 'both', 'both'])
+    if k == 0 and rng.random() < 0.5:
+      # a limit of 0 needs no order to be deterministic
+      pred['order'] = []
+      mode = 'limit'
+      g.features.add('limit_zero_without_order')
     if mode == 'limit':
       pass  # a limit alone is only deterministic with the order; keep order
     if mode in ('limit', 'both'):
@@ -97,10 +102,29 @@ def Cases(tier):
                              'sig': {'limit': [p for p in prog['preds']
                                                if p['name'] == o][0]['limit'],
                                      'plan': plan}}})
+  # directed: a single-rule predicate with a limit and NO order, read by
+  # another rule (K = 0 is the only K for which this is deterministic)
+  from harness import families
+  for j in range(4 if tier == 'quick' else 40):
+    E = families.Facts('E', families.RandRows(rng, 2))
+    x, y = gen.Var('x'), gen.Var('y')
+    L = gen.Pred('L', [gen.Rule([('col0', x, ''), ('col1', y, '')],
+                                [gen.Atom('E', [('col0', x), ('col1', y)])])],
+                 limit=0)
+    if j % 2:
+      L['limit_as_denotation'] = True
+    R = gen.Pred('R', [gen.Rule([('col0', x, '')],
+                                [gen.Atom('L', [('col0', x), ('col1', y)])])])
+    C = gen.Pred('Cnt', [gen.Rule([('logica_value', gen.Lit(gen.N(1)), 'Sum')],
+                                  [gen.Atom('L', [('col0', x)])], True)])
+    cases.append({'id': 'dl%d' % j, 'prog': gen.Prog([E, L, R, C]),
+                  'query': ['E', 'L', 'R'], 'ordered': ['L'],
+                  'meta': {'features': ['directed_limit_zero_reader'],
+                           'sig': {'limit': 0, 'plan': 'directed'}}})
   return cases + semrun.Reproducers(PROP)
 
 
-REQUIRED = ['denotation_form', 'annotation_form', 'limit_none', 'limit_zero',
+REQUIRED = ['directed_limit_zero_reader', 'limit_zero_without_order', 'denotation_form', 'annotation_form', 'limit_none', 'limit_zero',
             'limit_pos', 'consumer', 'plan_with', 'plan_nowith',
             'plan_noinject_consumer']
 
